@@ -127,6 +127,19 @@ def run(ctx):
             r2 = cal_err(f, x, b, NumberError(c, sc), grad=lambda u, v, w: [v / w + np.cos(u), u / w, -u * v / w**2])
             ref2 = math.sqrt((g[0] * sa) ** 2 + (g[2] * sc) ** 2)
             ctx.check("cal_err == first-order propagation", abs(r2.error - ref2) <= 1e-9 * ref2, lambda: {"lib": r2.error, "ref": ref2}, mechanism="cal_err with grad and a constant")
+            # array-valued numbers (several measurements propagated at once, also 0-d arrays): same formula element-wise, and the caller's
+            # values are left as they were
+            av, bv = np.array([a, a + 0.7, 2 * a]), np.array([b, b - 0.4, 0.5 * b])
+            sav, sbv = np.array([sa, 2 * sa, 0.5 * sa]), np.array([sb, sb, 3 * sb])
+            xa, xb = NumberError(av.copy(), sav), NumberError(bv.copy(), sbv)
+            x0d = NumberError(np.array(c), np.array(sc))
+            ra = cal_err(lambda u, v, w: u * v + w * u, xa, xb, x0d)
+            refa = np.sqrt(((bv + c) * sav) ** 2 + (av * sbv) ** 2 + (av * sc) ** 2)
+            unchanged = np.array_equal(np.asarray(xa.value), av) and np.array_equal(np.asarray(xb.value), bv) and float(np.asarray(x0d.value)) == c
+            okv = np.allclose(np.asarray(ra.error), refa, rtol=1e-7, atol=0)
+            ctx.check("cal_err == first-order propagation", bool(okv and unchanged),
+                      lambda: {"lib_error": np.asarray(ra.error), "ref_error": refa, "inputs_unchanged": bool(unchanged), "first_input_after": np.asarray(xa.value), "first_input_before": av},
+                      mechanism="cal_err with array-valued numbers" + ("" if unchanged else ": the caller's values are modified"))
         if i < 3:
             ctx.sample({"section": "number_error", "op": op, "left": [a, sa], "right": [b, sb], "lib": [r.value, r.error], "ref": [ref_v, ref_e]})
 
